@@ -61,7 +61,7 @@ Definition tagree (v6 : bool) (hl : N) (a b : list N) : Prop :=
   (v6 = true -> byte_at a 1 / 16 = byte_at b 1 / 16) /\
   byte_at a ((if v6 then 40 else 20) + 12) / 16 = byte_at b ((if v6 then 40 else 20) + 12) / 16.
 
-Lemma tmasked_false6 k : tmasked true k = false -> (k = 0 \/ 6 <= k) /\ (k < 44 \/ 48 <= k) /\ (k < 52 \/ 60 <= k).
+Lemma tmasked_false6 k : tmasked true k = false -> (k < 4 \/ 6 <= k) /\ (k < 44 \/ 48 <= k) /\ (k < 52 \/ 60 <= k).
 Proof.
   unfold tmasked, umasked. rewrite !orb_false_iff, !andb_false_iff, !N.leb_gt, !N.ltb_ge. lia.
 Qed.
@@ -105,9 +105,12 @@ Proof.
   specialize (A4 eq_refl). specialize (B4 eq_refl).
   assert (Hnib : byte_at a ((if v6 then 40 else 20) + 12) / 16 = byte_at b ((if v6 then 40 else 20) + 12) / 16) by lia.
   destruct v6.
-  - cbn [N.eqb Pos.eqb] in Hf. destruct Hf as [E0 [E1 E7]]. refine (conj _ (conj (fun _ => E1) Hnib)).
+  - cbn [N.eqb Pos.eqb] in Hf. destruct Hf as [E0 [E1 [E2 [E3 E7]]]]. refine (conj _ (conj (fun _ => f_equal (fun x => x / 16) E1) Hnib)).
     intros k Hkl Hm.
     destruct (N.eq_dec k 0) as [->|]; [exact E0|].
+    destruct (N.eq_dec k 1) as [->|]; [exact E1|].
+    destruct (N.eq_dec k 2) as [->|]; [exact E2|].
+    destruct (N.eq_dec k 3) as [->|]; [exact E3|].
     destruct (N.eq_dec k 6) as [->|]; [rewrite A3, B3; reflexivity|].
     destruct (N.eq_dec k 7) as [->|]; [exact E7|].
     destruct (N.lt_ge_cases k (40 + 20)) as [Hlt|Hge]; [|apply Hob; lia].
@@ -173,7 +176,7 @@ Lemma coalesce_tcp_seq mode pkt pktI gso seq psh it bufs off v6 it' bufs' :
   coalesce_tcp mode pkt pktI gso seq psh it bufs off v6 = (Success, it', bufs') ->
   it_seq it' = if is_prepend mode then seq else it_seq it.
 Proof.
-  unfold coalesce_tcp. destruct mode; cbn [is_prepend].
+  unfold coalesce_tcp. destruct (tun_maxUint16 <? _); [discriminate|]. destruct mode; cbn [is_prepend].
   1,2: destruct (no_room _ _ _); [discriminate|]; destruct (_ && _); [discriminate|];
        destruct (negb (checksum_valid pkt _ _ _)); [discriminate|]; intros H; inversion H; reflexivity.
   destruct (no_room _ _ _); [discriminate|]. destruct psh; [discriminate|].
@@ -184,11 +187,35 @@ Qed.
 (* ---------------------------------------------- invariant over the loop *)
 Definition flags_ok (p : list N) (iph : N) : Prop := byte_at p (iph + 13) = 16 \/ byte_at p (iph + 13) = 24.
 
+(* PSH: only the last member of a buffer may carry it, and the buffer's flags byte is the last member's *)
+Fixpoint psh_last (inp : list buf) (iph : N) (mem : list N) (f : N) : Prop :=
+  match mem with
+  | [] => True
+  | [m] => byte_at (b_pkt (get_buf inp m)) (iph + 13) = f
+  | m :: r => byte_at (b_pkt (get_buf inp m)) (iph + 13) = 16 /\ psh_last inp iph r f
+  end.
+Lemma psh_last_all16 inp iph mem : psh_last inp iph mem 16 -> forall m, In m mem -> byte_at (b_pkt (get_buf inp m)) (iph + 13) = 16.
+Proof.
+  induction mem as [|m r IH]; intros H x Hx; [destruct Hx|]. destruct r as [|m2 r2].
+  - destruct Hx as [<-|[]]. exact H.
+  - destruct H as [H1 H2]. destruct Hx as [<-|Hx]; [exact H1|]. apply IH; assumption.
+Qed.
+Lemma psh_last_snoc inp iph mem k f : (forall m, In m mem -> byte_at (b_pkt (get_buf inp m)) (iph + 13) = 16) ->
+  byte_at (b_pkt (get_buf inp k)) (iph + 13) = f -> psh_last inp iph (mem ++ [k]) f.
+Proof.
+  induction mem as [|m r IH]; intros H Hk; [exact Hk|]. cbn [app]. destruct (r ++ [k]) as [|y z] eqn:E.
+  - destruct r; discriminate.
+  - change (byte_at (b_pkt (get_buf inp m)) (iph + 13) = 16 /\ psh_last inp iph (y :: z) f).
+    split; [apply H; left; reflexivity|]. apply IH; [intros x Hx; apply H; right; exact Hx|exact Hk].
+Qed.
+
 Definition item_t (inp : list buf) (capsb : Prop) (tcp : bool) (it : item) (P : list N) (mem : list N) : Prop :=
   capsb -> tcp = true ->
   it_key it = flow_key P (it_v6 it) (it_iph it) true /\
   it_seq it mod U32' = be32 P (it_iph it + 4) mod U32' /\
   flags_ok P (it_iph it) /\
+  it_psh it = (byte_at P (it_iph it + 13) =? 24) /\
+  psh_last inp (it_iph it) mem (byte_at P (it_iph it + 13)) /\
   (forall m, In m mem -> tagree (it_v6 it) (hl_of true it) (b_pkt (get_buf inp m)) P /\
                          hl_of true it <= len (b_pkt (get_buf inp m)) /\ flags_ok (b_pkt (get_buf inp m)) (it_iph it)) /\
   seq_chain inp (it_iph it) (hl_of true it) (it_seq it) mem.
@@ -199,9 +226,10 @@ Lemma fresh_item_ok4 inp (capsb : Prop) tcp pkt k v6 new :
   fresh_item tcp pkt k v6 new -> pkt = b_pkt (get_buf inp k) -> item_ok4 inp capsb tcp new pkt [k].
 Proof.
   intros Hf Hp. split; [eapply fresh_item_ok3; eauto|]. intros _ ->.
-  destruct Hf as [_ [_ [Hv [_ [_ [Hl [_ [_ [_ [Hkey [_ Htf]]]]]]]]]]]. destruct (Htf eq_refl) as [Hs Hfl].
-  rewrite Hv. refine (conj Hkey (conj _ (conj Hfl (conj _ _)))).
+  destruct Hf as [_ [_ [Hv [_ [_ [Hl [_ [_ [_ [Hkey [_ Htf]]]]]]]]]]]. destruct (Htf eq_refl) as [Hs [Hfl Hps]].
+  rewrite Hv. refine (conj Hkey (conj _ (conj Hfl (conj Hps (conj _ (conj _ _)))))).
   - rewrite Hs. reflexivity.
+  - cbn [psh_last]. rewrite <- Hp. reflexivity.
   - intros m [<-|[]]. rewrite <- Hp. refine (conj (tagree_refl _ _ _) (conj Hl Hfl)).
   - cbn [seq_chain]. rewrite <- Hp, Hs. auto.
 Qed.
@@ -237,7 +265,7 @@ Ltac hide H := let T := type of H in change (hide T) in H.
 Ltac unhide H := unfold hide in H.
 
 Lemma merge_item_ok4 inp off (capsb : Prop) tcp pkt k v6 p it it' bufs bufs' mem :
-  (capsb -> caps_ok off bufs) ->
+  True ->
   merged_ok tcp pkt k off v6 p it it' bufs bufs' ->
   pkt = b_pkt (get_buf inp k) -> b_pkt (get_buf bufs k) = pkt ->
   it_idx it <> k -> (N.to_nat (it_idx it) < length bufs)%nat ->
@@ -246,19 +274,20 @@ Lemma merge_item_ok4 inp off (capsb : Prop) tcp pkt k v6 p it it' bufs bufs' mem
 Proof.
   intros HC Hmo Hpk Hbk Hne Hlt [Hok3 Ht].
   split; [eapply merge_item_ok3; eauto|]. intros Hcb ->. specialize (Ht Hcb eq_refl).
-  destruct Ht as [Hkey [Hseq [Hfl [Hag Hchain]]]].
-  destruct Hok3 as [[[Hhl [Hg1 [Hiph [Hhd [Htc [Hmz [Hml Hch]]]]]]] [Hh Hlen]] _]. specialize (Hlen Hcb).
+  destruct Ht as [Hkey [Hseq [Hfl [Hpsh [Hpl [Hag Hchain]]]]]].
+  destruct Hok3 as [[[Hhl [Hg1 [Hiph [Hhd [Htc [Hmz [Hml Hch]]]]]]] [Hh Hlen]] _].
   destruct Hmo as [new [Hf [Hk2 [mode [Hp [Hmode [Hcan Hco]]]]]]].
   pose proof (merge_iph _ _ _ _ _ _ Hf Hk2 Hiph Hhd) as Hi.
   destruct Hf as [Hfi [Hfm [Hfv [Hfiph [Hft [Hfl0 [Hfg [Hfg1 [Hfmax [Hfkey [Hfh Htf]]]]]]]]]]].
-  destruct (Htf eq_refl) as [Hns Hnfl].
+  destruct (Htf eq_refl) as [Hns [Hnfl Hnpsh]].
   assert (Hv : it_v6 it = v6) by (rewrite Hk2, Hfkey, flow_key_hd in Hhd; apply v6_flag_inj in Hhd; auto).
   destruct (coalesce_tcp_success _ _ _ _ _ _ _ _ _ _ _ _ Hco) as [[Sk [Sv [Si [Sip [St Sm]]]]] [Hb' [Hg' Hroom]]].
   pose proof (coalesce_tcp_seq _ _ _ _ _ _ _ _ _ _ _ _ Hco) as Sseq.
+  pose proof (coalesce_tcp_psh _ _ _ _ _ _ _ _ _ _ _ _ Hco) as Spsh.
   destruct (tcp_can_all _ _ _ _ _ _ _ _ _ Hcan Hmode) as [Etc [Eopt [Eip [Eapp Epre]]]].
   set (P := b_pkt (get_buf bufs (it_idx it))) in *.
   hide Eapp. hide Epre. hide Hroom. hide Hg'. hide Hseq. hide Hchain. hide Hcan. hide Hco.
-  unfold hl_of in *. rewrite Sip, St, Sv, Sk.
+  unfold hl_of in *. rewrite Sip, St, Sv, Sk, Spsh.
   set (iph := it_iph it) in *. set (tcph := it_tcph it) in *.
   assert (Eiph : iph = if v6 then 40 else 20) by (rewrite <- Hv; exact Hiph).
   rewrite <- Hi in *. rewrite Etc in *. clear Hi Etc Hft.
@@ -283,15 +312,24 @@ Proof.
       rewrite byte_at_put_byte by exact Hfo. destruct (N.eqb_spec q (iph + 13)); [contradiction|reflexivity]. }
     assert (Hext : forall x, tagree v6 (iph + tcph) x P -> tagree v6 (iph + tcph) x (head' ++ drop (iph + tcph) pkt)).
     { intros x. apply tagree_ext; [lia|]. rewrite <- Eiph. exact Bh. }
-    refine (conj _ (conj _ (conj _ (conj _ _)))).
+    assert (Hnp : it_psh it = false) by (unhide Hcan; apply (tcp_can_append_facts _ _ _ _ _ _ _ _ Hcan)).
+    assert (HP16 : byte_at P (iph + 13) = 16).
+    { rewrite Hnp in Hpsh. destruct Hfl as [E|E]; [exact E|]. rewrite E in Hpsh. discriminate. }
+    assert (Hfl' : byte_at (head' ++ drop (iph + tcph) pkt) (iph + 13) = byte_at pkt (iph + 13)).
+    { rewrite byte_at_app_l by (rewrite Hh1; clear - Hfo; lia). unfold head'. rewrite Hnpsh.
+      destruct Hnfl as [E|E]; rewrite E; cbn [N.eqb Pos.eqb]; [exact HP16|].
+      rewrite byte_at_put_byte by exact Hfo. rewrite N.eqb_refl, HP16. reflexivity. }
+    refine (conj _ (conj _ (conj _ (conj _ (conj _ (conj _ _)))))).
     + rewrite Hkey. symmetry. apply flow_key_ext.
       * rewrite len_app, Hh1. lia.
       * lia.
       * intros q Hq. apply Bh; lia.
       * rewrite Eiph. destruct v6; lia.
     + unhide Hseq. rewrite Sseq, Hseq. f_equal. apply be32_ext. intros q H1 H2. symmetry. apply Bh; lia.
-    + unfold flags_ok. rewrite byte_at_app_l by lia. unfold head'. destruct (it_psh new); [|exact Hfl].
-      rewrite byte_at_put_byte by exact Hfo. rewrite N.eqb_refl. right. apply (flags_lor P iph Hfl).
+    + unfold flags_ok. rewrite Hfl'. exact Hnfl.
+    + rewrite Hfl', Hnp, <- Hnpsh. destruct (it_psh new); reflexivity.
+    + rewrite Hfl'. apply psh_last_snoc; [|rewrite <- Hpk; reflexivity].
+      apply psh_last_all16. rewrite <- HP16. exact Hpl.
     + intros m Hm. apply in_app_or in Hm as [Hm|[<-|[]]].
       * destruct (Hag m Hm) as [G1 [G2 G3]]. refine (conj (Hext _ G1) (conj G2 G3)).
       * rewrite <- Hpk. refine (conj (Hext _ Agree) (conj Hplen Hnfl)).
@@ -309,19 +347,36 @@ Proof.
   - (* prepend *)
     rewrite Hb'. unfold tcp_merge_bufs. cbn [is_prepend].
     rewrite get_set_buf_same by (rewrite set_buf_length; exact Hlt). cbn [with_pkt b_pkt]. fold P. fold iph tcph.
-    assert (Bp : forall q, q < iph + tcph -> byte_at (pkt ++ drop (iph + tcph) P) q = byte_at pkt q).
-    { intros q Hq. apply byte_at_app_l. clear - Hq Hplen. lia. }
-    assert (Hext : forall x, tagree v6 (iph + tcph) x pkt -> tagree v6 (iph + tcph) x (pkt ++ drop (iph + tcph) P)).
-    { intros x. apply tagree_ext; [clear - Eiph Htc; lia|]. intros q Hq _. apply Bp. exact Hq. }
+    change FLAGS_OFF with 13. change PSH with 8.
+    set (pkt' := if it_psh it then put_byte pkt (iph + 13) (N.lor (byte_at pkt (iph + 13)) 8) else pkt).
+    assert (Hfo : iph + 13 + 1 <= len pkt) by (clear - Hplen Htc; lia).
+    assert (Lp : len pkt' = len pkt) by (unfold pkt'; destruct (it_psh it); [apply len_put_byte; exact Hfo|reflexivity]).
+    assert (Hnp : it_psh new = false) by (unhide Hcan; apply (tcp_can_prepend_facts _ _ _ _ _ _ _ _ Hcan)).
+    assert (Hp16 : byte_at pkt (iph + 13) = 16).
+    { rewrite Hnp in Hnpsh. destruct Hnfl as [E|E]; [exact E|]. rewrite E in Hnpsh. discriminate. }
+    assert (Bp : forall q, q < iph + tcph -> q <> iph + 13 -> byte_at (pkt' ++ drop (iph + tcph) P) q = byte_at pkt q).
+    { intros q Hq Hq13. rewrite byte_at_app_l by (rewrite Lp; clear - Hq Hplen; lia). unfold pkt'. destruct (it_psh it); [|reflexivity].
+      rewrite byte_at_put_byte by exact Hfo. destruct (N.eqb_spec q (iph + 13)); [contradiction|reflexivity]. }
+    assert (Hfl' : byte_at (pkt' ++ drop (iph + tcph) P) (iph + 13) = byte_at P (iph + 13)).
+    { rewrite byte_at_app_l by (rewrite Lp; clear - Hfo; lia). unfold pkt'. rewrite Hpsh.
+      destruct Hfl as [E|E]; rewrite E; cbn [N.eqb Pos.eqb]; [exact Hp16|].
+      rewrite byte_at_put_byte by exact Hfo. rewrite N.eqb_refl, Hp16. reflexivity. }
+    assert (Hext : forall x, tagree v6 (iph + tcph) x pkt -> tagree v6 (iph + tcph) x (pkt' ++ drop (iph + tcph) P)).
+    { intros x. apply tagree_ext; [clear - Eiph Htc; lia|]. rewrite <- Eiph. exact Bp. }
     assert (Hlp : iph + 12 <= len pkt) by (clear - Hplen Htc; lia).
-    refine (conj _ (conj _ (conj _ (conj _ _)))).
+    refine (conj _ (conj _ (conj _ (conj _ (conj _ (conj _ _)))))).
     + rewrite Hk2, Hfkey. symmetry. apply flow_key_ext.
-      * rewrite len_app. clear - Hlp. lia.
+      * rewrite len_app, Lp. clear - Hlp. lia.
       * exact Hlp.
-      * intros q Hq. apply Bp. clear - Hq Htc. lia.
+      * intros q Hq. apply Bp; clear - Hq Htc; lia.
       * rewrite Eiph. destruct v6; lia.
-    + rewrite Sseq, Hns. f_equal. apply be32_ext. intros q H1 H2. symmetry. apply Bp. clear - H2 Htc. lia.
-    + unfold flags_ok. rewrite Bp by (clear - Htc; lia). exact Hnfl.
+    + rewrite Sseq, Hns. f_equal. apply be32_ext. intros q H1 H2. symmetry. apply Bp; clear - H1 H2 Htc; lia.
+    + unfold flags_ok. rewrite Hfl'. exact Hfl.
+    + rewrite Hfl'. exact Hpsh.
+    + rewrite Hfl'. destruct mem as [|m0 r0]; [cbn in Hml; clear - Hml; exfalso; lia|].
+      change (psh_last inp iph (k :: m0 :: r0) (byte_at P (iph + 13))) with
+        (byte_at (b_pkt (get_buf inp k)) (iph + 13) = 16 /\ psh_last inp iph (m0 :: r0) (byte_at P (iph + 13))).
+      split; [rewrite <- Hpk; exact Hp16|exact Hpl].
     + intros m [<-|Hm].
       * rewrite <- Hpk. refine (conj (Hext _ (tagree_refl _ _ _)) (conj Hplen Hnfl)).
       * destruct (Hag m Hm) as [G1 [G2 G3]]. refine (conj (Hext _ _) (conj G2 G3)).
@@ -334,24 +389,19 @@ Proof.
 Qed.
 
 Lemma loop_inv_t udp off inp k (capsb : Prop) :
-  (capsb -> caps_ok off inp) ->
   (k <= length inp)%nat -> s_err (loop_k udp off inp k) = false ->
-  allQ (item_ok4 inp capsb) (loop_k udp off inp k) /\ (capsb -> caps_ok off (s_bufs (loop_k udp off inp k))).
+  allQ (item_ok4 inp capsb) (loop_k udp off inp k).
 Proof.
-  intros Hcaps. induction k as [|k IH]; intros Hk He.
-  - split; [|exact Hcaps]. intros tcp it H. destruct tcp; destruct H.
+  induction k as [|k IH]; intros Hk He.
+  - intros tcp it H. destruct tcp; destruct H.
   - pose proof (loop_inv_all udp off inp k ltac:(lia)) as Hall.
     unfold loop_k in *. rewrite indices_S, fold_left_app in *. cbn [fold_left] in *. rewrite N.add_0_l in *.
-    pose proof (err_sticky _ _ _ _ He) as He0. destruct (IH ltac:(lia) He0) as [IQ IC]. destruct (Hall He0) as [I [I2 _]].
-    assert (Hs : step_spec off (fold_left (gro_step udp off) (indices k 0) (init inp)) (N.of_nat k)
-                   (gro_step udp off (fold_left (gro_step udp off) (indices k 0) (init inp)) (N.of_nat k))).
-    { apply gro_step_spec; auto; [apply (i_kt _ _ _ I)|apply (i_ku _ _ _ I)]. }
-    split.
-    + eapply (allQ_step inp off (item_ok4 inp capsb) (fun bufs => capsb -> caps_ok off bufs)); eauto.
-      * intros. eapply fresh_item_ok4; eauto.
-      * intros. eapply merge_item_ok4; eauto.
-      * apply (i_nodup _ _ I2).
-    + intros Hc. eapply step_caps; eauto.
+    pose proof (err_sticky _ _ _ _ He) as He0. pose proof (IH ltac:(lia) He0) as IQ. destruct (Hall He0) as [I [I2 _]].
+    destruct (gro_step_spec udp off _ (N.of_nat k) (i_kt _ _ _ I) (i_ku _ _ _ I) He0 (inv_range inp k _ (Nat.lt_le_incl _ _ Hk) I) He) as [bz [Hz [_ Hs]]].
+    eapply (allQ_step inp off (item_ok4 inp capsb) (fun _ => True)); [| | |apply (inv_zero _ _ _ _ I Hz)|apply (i_nodup _ _ I2)|exact Logic.I|apply allQ_zero; [exact IQ|exact Hz]|exact Hs].
+    + intros. eapply fresh_item_ok4; eauto.
+    + intros. eapply merge_item_ok4; eauto.
+    + lia.
 Qed.
 
 (* ------------------------- accounting and kernel keep the compared bytes *)
@@ -441,49 +491,37 @@ Qed.
 Definition tcanon_byte (v6 : bool) (p : list N) (k : N) : N :=
   let iph := if v6 then 40 else 20 in
   if (iph + 14 <=? k) && (k <? iph + 20) then 0
-  else if k =? iph + 13 then N.land (byte_at p (iph + 13)) 247
   else if k =? iph + 12 then (byte_at p (iph + 12) / 16) * 16
-  else if v6 then (if k =? 1 then (byte_at p 1 / 16) * 16 else if (2 <=? k) && (k <? 6) then 0 else byte_at p k)
+  else if v6 then (if (4 <=? k) && (k <? 6) then 0 else byte_at p k)
   else if ((2 <=? k) && (k <? 6)) || ((10 <=? k) && (k <? 12)) then 0 else byte_at p k.
 
 Lemma canon_tcp (v6 : bool) tcph p :
   hdr_facts true v6 tcph p -> (if v6 then 40 else 20) + 20 <= len p ->
-  len (canon_gen true true p) = len p /\ forall k, byte_at (canon_gen true true p) k = tcanon_byte v6 p k.
+  len (canon p) = len p /\ forall k, byte_at (canon p) k = tcanon_byte v6 p k.
 Proof.
-  intros Hf Hl. unfold canon_gen. rewrite (l3_parse_of_facts true v6 tcph p Hf) by (destruct v6; lia).
+  intros Hf Hl. unfold canon, canon_gen. rewrite (l3_parse_of_facts true v6 tcph p Hf) by (destruct v6; lia).
   change (6 =? 6) with true. cbn [andb].
   destruct (N.leb_spec ((if v6 then 40 else 20) + 20) (len p)); [|lia].
   destruct v6; cbn [andb].
-  - set (a0 := zero_at p 4 2). assert (La0 : len a0 = len p) by apply len_zero_at.
-    set (a1 := zero_at a0 2 2). assert (La1 : len a1 = len p) by (unfold a1; rewrite len_zero_at; exact La0).
-    set (a := put_byte a1 1 (byte_at a0 1 / 16 * 16)). assert (La : len a = len p) by (unfold a; rewrite len_put_byte; lia).
+  - set (a := zero_at p 4 2). assert (La : len a = len p) by apply len_zero_at.
     set (b := put_byte a (40 + 12) (byte_at a (40 + 12) / 16 * 16)). assert (Lb : len b = len p) by (unfold b; rewrite len_put_byte; lia).
-    set (b2 := put_byte b (40 + 13) (N.land (byte_at b (40 + 13)) 247)). assert (Lb2 : len b2 = len p) by (unfold b2; rewrite len_put_byte; lia).
-    split; [rewrite len_zero_at; exact Lb2|].
-    assert (Ba : forall k, byte_at a k = if k =? 1 then byte_at p 1 / 16 * 16 else if (2 <=? k) && (k <? 6) then 0 else byte_at p k).
-    { intros k. unfold a. rewrite byte_at_put_byte by lia. destruct (N.eqb_spec k 1) as [->|Hk1].
-      - unfold a0. rewrite byte_at_zero_at by lia. reflexivity.
-      - unfold a1. rewrite byte_at_zero_at by lia. unfold a0. rewrite byte_at_zero_at by lia.
-        destruct (N.leb_spec 2 k), (N.ltb_spec k (2 + 2)), (N.leb_spec 4 k), (N.ltb_spec k (4 + 2)), (N.ltb_spec k 6); cbn [andb]; try reflexivity; lia. }
+    split; [rewrite len_zero_at; exact Lb|].
+    assert (Ba : forall k, byte_at a k = if (4 <=? k) && (k <? 6) then 0 else byte_at p k).
+    { intros k. unfold a. rewrite byte_at_zero_at by lia. reflexivity. }
     intros k. rewrite byte_at_zero_at by lia. unfold tcanon_byte. change (40 + 14 + 6) with (40 + 20).
     destruct ((40 + 14 <=? k) && (k <? 40 + 20)); [reflexivity|].
-    unfold b2. rewrite byte_at_put_byte by lia. destruct (N.eqb_spec k (40 + 13)) as [->|Hk13].
-    + unfold b. rewrite byte_at_put_byte by lia. change (40 + 13 =? 40 + 12) with false. cbv iota. rewrite Ba. reflexivity.
-    + unfold b. rewrite byte_at_put_byte by lia. destruct (N.eqb_spec k (40 + 12)) as [->|Hk12]; [rewrite Ba; reflexivity|apply Ba].
+    unfold b. rewrite byte_at_put_byte by lia. destruct (N.eqb_spec k (40 + 12)) as [->|Hk12]; [rewrite Ba; reflexivity|apply Ba].
   - set (a0 := zero_at p 2 4). assert (La0 : len a0 = len p) by apply len_zero_at.
     set (a := zero_at a0 10 2). assert (La : len a = len p) by (unfold a; rewrite len_zero_at; exact La0).
     set (b := put_byte a (20 + 12) (byte_at a (20 + 12) / 16 * 16)). assert (Lb : len b = len p) by (unfold b; rewrite len_put_byte; lia).
-    set (b2 := put_byte b (20 + 13) (N.land (byte_at b (20 + 13)) 247)). assert (Lb2 : len b2 = len p) by (unfold b2; rewrite len_put_byte; lia).
-    split; [rewrite len_zero_at; exact Lb2|].
+    split; [rewrite len_zero_at; exact Lb|].
     assert (Ba : forall k, byte_at a k = if ((2 <=? k) && (k <? 6)) || ((10 <=? k) && (k <? 12)) then 0 else byte_at p k).
     { intros k. unfold a. rewrite byte_at_zero_at by lia. unfold a0. rewrite byte_at_zero_at by lia.
       destruct (N.leb_spec 2 k), (N.ltb_spec k (2 + 4)), (N.leb_spec 10 k), (N.ltb_spec k (10 + 2)), (N.ltb_spec k 6), (N.ltb_spec k 12);
         cbn [andb orb]; try reflexivity; lia. }
     intros k. rewrite byte_at_zero_at by lia. unfold tcanon_byte. change (20 + 14 + 6) with (20 + 20).
     destruct ((20 + 14 <=? k) && (k <? 20 + 20)); [reflexivity|].
-    unfold b2. rewrite byte_at_put_byte by lia. destruct (N.eqb_spec k (20 + 13)) as [->|Hk13].
-    + unfold b. rewrite byte_at_put_byte by lia. change (20 + 13 =? 20 + 12) with false. cbv iota. rewrite Ba. reflexivity.
-    + unfold b. rewrite byte_at_put_byte by lia. destruct (N.eqb_spec k (20 + 12)) as [->|Hk12]; [rewrite Ba; reflexivity|apply Ba].
+    unfold b. rewrite byte_at_put_byte by lia. destruct (N.eqb_spec k (20 + 12)) as [->|Hk12]; [rewrite Ba; reflexivity|apply Ba].
 Qed.
 
 Lemma canon_tcp_eq (v6 : bool) tcph a b :
@@ -491,27 +529,26 @@ Lemma canon_tcp_eq (v6 : bool) tcph a b :
   hdr_facts true v6 tcph a -> hdr_facts true v6 tcph b -> 20 <= tcph ->
   iph + tcph <= len a -> len a = len b -> tagree v6 (iph + tcph) a b ->
   (forall q, iph + 4 <= q -> q < iph + 8 -> byte_at a q = byte_at b q) ->
-  N.land (byte_at a (iph + 13)) 247 = N.land (byte_at b (iph + 13)) 247 ->
+  byte_at a (iph + 13) = byte_at b (iph + 13) ->
   (forall k, iph + tcph <= k -> byte_at a k = byte_at b k) ->
-  canon_gen true true a = canon_gen true true b.
+  canon a = canon b.
 Proof.
   intros iph Ha Hb Ht Hl Hlen [Hu1 [Hu2 Hu3]] Hseq Hfl Hpay.
   destruct (canon_tcp v6 tcph a Ha ltac:(fold iph; lia)) as [La Ba]. destruct (canon_tcp v6 tcph b Hb ltac:(fold iph; lia)) as [Lb Bb].
   apply list_ext; [lia|]. intros k _. rewrite Ba, Bb. unfold tcanon_byte. fold iph.
   destruct ((iph + 14 <=? k) && (k <? iph + 20)) eqn:E1; [reflexivity|].
-  destruct (N.eqb_spec k (iph + 13)); [exact Hfl|]. destruct (N.eqb_spec k (iph + 12)); [fold iph in Hu3; rewrite Hu3; reflexivity|].
-  assert (Hmain : (if v6 then (1 <=? k) && (k <? 6) else ((2 <=? k) && (k <? 6)) || ((10 <=? k) && (k <? 12))) = false -> byte_at a k = byte_at b k).
+  destruct (N.eqb_spec k (iph + 12)); [fold iph in Hu3; rewrite Hu3; reflexivity|].
+  assert (Hmain : umasked v6 k = false -> byte_at a k = byte_at b k).
   { intros Hm. destruct (N.lt_ge_cases k (iph + tcph)) as [Hlt|Hge]; [|apply Hpay; exact Hge].
+    destruct (N.eq_dec k (iph + 13)) as [->|H13]; [exact Hfl|].
     destruct (N.le_gt_cases (iph + 4) k) as [H4|H4].
     - destruct (N.lt_ge_cases k (iph + 8)) as [H8|H8]; [apply Hseq; assumption|].
-      apply Hu1; [exact Hlt|]. unfold tmasked, umasked. fold iph. rewrite Hm.
+      apply Hu1; [exact Hlt|]. unfold tmasked. fold iph. rewrite Hm.
       destruct (N.leb_spec (iph + 4) k), (N.ltb_spec k (iph + 8)), (N.leb_spec (iph + 12) k), (N.ltb_spec k (iph + 20)); cbn [andb orb]; try reflexivity; try lia.
-    - apply Hu1; [exact Hlt|]. unfold tmasked, umasked. fold iph. rewrite Hm.
+    - apply Hu1; [exact Hlt|]. unfold tmasked. fold iph. rewrite Hm.
       destruct (N.leb_spec (iph + 4) k), (N.ltb_spec k (iph + 8)), (N.leb_spec (iph + 12) k), (N.ltb_spec k (iph + 20)); cbn [andb orb]; try reflexivity; lia. }
-  destruct v6.
-  - destruct (N.eqb_spec k 1); [rewrite (Hu2 eq_refl); reflexivity|].
-    destruct ((2 <=? k) && (k <? 6)) eqn:E2; [reflexivity|]. apply Hmain.
-    destruct (N.leb_spec 1 k), (N.ltb_spec k 6), (N.leb_spec 2 k); cbn [andb] in *; try reflexivity; try discriminate; lia.
+  unfold umasked in Hmain. destruct v6.
+  - destruct ((4 <=? k) && (k <? 6)) eqn:E2; [reflexivity|]. apply Hmain. reflexivity.
   - destruct (((2 <=? k) && (k <? 6)) || ((10 <=? k) && (k <? 12))) eqn:E2; [reflexivity|]. apply Hmain. reflexivity.
 Qed.
 
@@ -585,10 +622,11 @@ Section TcpAssembly.
     tagree v6 hl (b_pkt (get_buf inp m)) F /\ hl <= len (b_pkt (get_buf inp m)) /\ flags_ok (b_pkt (get_buf inp m)) iph.
 
   Lemma tcp_segment_canon m i lst :
-    member_ok m -> be32 (b_pkt (get_buf inp m)) (iph + 4) mod U32' = (be32 F (iph + 4) + i * g) mod U32' ->
-    canon_gen true true (build_segment v true (take hl F) ltot i (pl m) lst) = canon_gen true true (b_pkt (get_buf inp m)).
+    member_ok m -> byte_at (b_pkt (get_buf inp m)) (iph + 13) = (if lst : bool then byte_at F (iph + 13) else 16) ->
+    be32 (b_pkt (get_buf inp m)) (iph + 4) mod U32' = (be32 F (iph + 4) + i * g) mod U32' ->
+    canon (build_segment v true (take hl F) ltot i (pl m) lst) = canon (b_pkt (get_buf inp m)).
   Proof.
-    intros [Ag [Lm Fm]] Hseq.
+    intros [Ag [Lm Fm]] Hfm Hseq.
     destruct (seg_tcp_bytes v6 tcph v F ltot i (pl m) lst Hcs Hco Hhl Ht HhF Hlf) as [Ls [Ps [Bs [Sq Fl]]]].
     fold iph hl in Ls, Ps, Bs, Sq, Fl. fold g in Sq.
     set (sg := build_segment v true (take hl F) ltot i (pl m) lst) in *.
@@ -616,22 +654,23 @@ Section TcpAssembly.
       replace q with (iph + 4 + (q - (iph + 4))) by lia.
       rewrite Sq by lia. rewrite Hbb by lia. rewrite EX. reflexivity.
     - (* flags *)
-      rewrite Fl. destruct (flags_mask _ HflF) as [G1 G2]. destruct (flags_mask _ Fm) as [G3 _].
-      destruct lst; congruence.
+      fold M in Hfm. rewrite Fl, Hfm. destruct lst; [reflexivity|]. destruct HflF as [E|E]; rewrite E; reflexivity.
     - intros k Hk. rewrite Ps by exact Hk. unfold pl, payload_of. rewrite byte_at_drop. f_equal. lia.
   Qed.
 
   Lemma tcp_build_all_canon : forall mem X i s,
     chunks g X = map pl mem -> seq_chain inp iph hl s mem ->
     s mod U32' = (be32 F (iph + 4) + i * g) mod U32' ->
+    psh_last inp iph mem (byte_at F (iph + 13)) ->
     (forall m, In m mem -> member_ok m) ->
-    map (canon_gen true true) (build_all v true (take hl F) ltot i (map pl mem)) =
-    map (fun m => canon_gen true true (b_pkt (get_buf inp m))) mem.
+    map canon (build_all v true (take hl F) ltot i (map pl mem)) =
+    map (fun m => canon (b_pkt (get_buf inp m))) mem.
   Proof.
-    induction mem as [|m r IH]; intros X i s Hch Hchain Hs Hmem; [reflexivity|].
+    induction mem as [|m r IH]; intros X i s Hch Hchain Hs Hpsh Hmem; [reflexivity|].
     cbn [map build_all]. cbn [seq_chain] in Hchain. destruct Hchain as [Hc1 Hc2].
     f_equal.
-    - apply tcp_segment_canon; [apply Hmem; left; reflexivity|]. rewrite Hc1. exact Hs.
+    - apply tcp_segment_canon; [apply Hmem; left; reflexivity| |rewrite Hc1; exact Hs].
+      destruct r as [|m2 r2]; [exact Hpsh|exact (proj1 Hpsh)].
     - destruct r as [|m2 r2]; [reflexivity|].
       assert (HX : X <> []) by (intros ->; rewrite chunks_nil in Hch; discriminate).
       rewrite chunks_unfold in Hch by auto. cbn [map] in Hch. inversion Hch as [[E1 E2]].
@@ -644,38 +683,40 @@ Section TcpAssembly.
       + exact Hc2.
       + rewrite Hlen. replace (be32 F (iph + 4) + (i + 1) * g) with (be32 F (iph + 4) + i * g + g) by lia.
         apply mod_add_step. exact Hs.
+      + exact (proj2 Hpsh).
       + intros m' Hm'. apply Hmem. right. exact Hm'.
   Qed.
 End TcpAssembly.
 
 (* ------------------------ theorem: TCP flows are lossless, header and all *)
-(* Within the capacity bound, for input bytes below 256: the segments the kernel
-   makes of a coalesced TCP buffer are, in sequence order, the segments merged
-   into it (appended or prepended) -- equal in every byte the property compares:
-   addresses, ports, sequence and acknowledgement numbers, data offset, flags
-   (PSH masked), options, payload, IP header fields other than length, IPv4 ID and
-   checksums (IPv6 flow label masked); TCP window, checksum, reserved bits and
-   urgent pointer are not compared. *)
+(* For input bytes below 256: the segments the kernel makes of a coalesced TCP buffer
+   are, in sequence order, the segments merged into it (appended or prepended) --
+   equal in every byte the property compares (canon): addresses, ports, sequence and
+   acknowledgement numbers, data offset, the flags byte incl. PSH, options, payload,
+   IP header fields incl. the IPv6 flow label, other than length, IPv4 ID and checksums;
+   TCP window, checksum, reserved bits and urgent pointer are not compared.
+   PSH: only the last member of a buffer can carry it (PSH ends appending, and a segment
+   with PSH is never prepended); the buffer's header carries the last member's PSH (on
+   prepend it is carried over, ad814da) and the kernel puts it on the last segment only. *)
 Theorem gro_tcp_lossless : forall (canUDP : bool) (offset : N) (bufs : list buf) (j : N),
-  (forall b, In b bufs -> b_cap b <= 65535 + 2 * offset) -> bytes_ok bufs ->
+  bytes_ok bufs ->
   let s := handle_gro canUDP offset bufs in
   s_err s = false -> merged_into (s_trace s) j ->
   let b := get_buf (s_bufs s) j in
   v_gso (dec_vhdr (b_hdr b)) <> GSO_UDP_L4 ->
-  map (canon_gen true true) (kernel_segment (b_hdr b) (b_pkt b)) =
-  map (fun m => canon_gen true true (b_pkt (get_buf bufs m))) (members (s_trace s) j).
+  map canon (kernel_segment (b_hdr b) (b_pkt b)) =
+  map (fun m => canon (b_pkt (get_buf bufs m))) (members (s_trace s) j).
 Proof.
-  intros udp off inp j Hcaps Hbytes s He. subst s. unfold handle_gro in *. rewrite gro_loop_is in *.
+  intros udp off inp j Hbytes s He. subst s. unfold handle_gro in *. rewrite gro_loop_is in *.
   set (s0 := loop_k udp off inp (length inp)) in *.
   assert (He0 : s_err s0 = false) by (destruct (s_err s0) eqn:E; [cbn iota in He; congruence|reflexivity]).
   rewrite He0 in *. cbn [s_trace s_tw s_bufs]. intros Hmj.
   destruct (loop_inv_all udp off inp (length inp) (le_n _) He0) as [I [I2 I3]]. fold s0 in I, I2, I3.
-  destruct (loop_inv_t udp off inp (length inp) True (fun _ => caps_init off inp Hcaps) (le_n _) He0) as [IQ _]. fold s0 in IQ.
+  pose proof (loop_inv_t udp off inp (length inp) True (le_n _) He0) as IQ. fold s0 in IQ.
   destruct (i_cover _ I3 j Hmj) as [tcp [it [Hin Hidx]]].
   pose proof (sel_total_in _ _ _ Hin) as Hint.
   destruct (i_items _ _ _ I it Hint) as [Htw _].
   destruct (IQ tcp it Hin) as [[[[Hhl [Hg1 [Hiph [Hhd [Htc [Hmz [Hml Hch]]]]]]] [Hhf Hlen]] _] Htt].
-  specialize (Hlen Logic.I).
   destruct (i_bounds _ I3 tcp it Hin) as [Bg Bh].
   pose proof (members_length_merged _ _ Hmj) as Hlen2.
   rewrite Hidx in *.
@@ -698,7 +739,7 @@ Proof.
   { rewrite Hh, dec_enc_vhdr; [reflexivity|lia|lia| |destruct tcp; lia]. rewrite Hiph. destruct (it_v6 it); lia. }
   intros Hnudp. rewrite Hdec0 in Hnudp.
   destruct tcp; [|exfalso; apply Hnudp; reflexivity]. clear Hnudp Hdec0.
-  destruct (Htt Logic.I eq_refl) as [Hkey [Hseq [HflP [Hag Hchain]]]].
+  destruct (Htt Logic.I eq_refl) as [Hkey [Hseq [HflP [_ [HpshP [Hag Hchain]]]]]].
   pose proof (acc_buf_bytes true it B Hmpos Hiph Htc Hhl Hlen) as Hb. cbn zeta in Hb. fold P in Hb, Hl, Hd.
   pose proof (acc_buf_tcp_bytes it B Hmpos Hiph Htc Hhl Hlen) as HbF. fold P in HbF.
   set (F := b_pkt (acc_buf true it B)) in *.
@@ -748,6 +789,7 @@ Proof.
   - cbn [v_gsosize]. rewrite <- Hiph. exact Hch.
   - rewrite <- Hiph. exact Hchain.
   - cbn [v_gsosize]. rewrite N.mul_0_l, N.add_0_r, <- Hiph, EseqF. exact Hseq.
+  - rewrite <- Hiph, EflF. exact HpshP.
   - intros m Hm. destruct (Hag m Hm) as [G1 [G2 G3]]. unfold member_ok. rewrite <- Hiph.
     refine (conj _ (conj G2 G3)). eapply tagree_trans; [exact G1|exact AFP].
 Qed.
